@@ -62,9 +62,11 @@ def measure_hold(ctx, rnd):
     CH = 64 * 1024
     size = 1 << 20 if ctx.tier == "quick" else 4 << 20
     leads = [b"\r", b"\n", b"\r\n", b"x\ry", b"", b"\n\r", b"\n--" + boundary + b"x", b"\r\n--" + boundary + b" \tx", b"--" + boundary, b"\r\n--" + boundary + b"-x"]
-    for lead in leads:
-        content = lead + bytes(rnd.getrandbits(8) | 0x80 for _ in range(64)) * (size // 64)
-        content = content.replace(b"\r", b"\xfe").replace(b"\n", b"\xfd") if False else lead + b"\xaa" * size
+    # (lead, filler): the last one is delimiter text followed by a megabyte of BLANKS - transport padding may follow a boundary,
+    # so the decoder cannot know yet whether this is a delimiter line
+    fills = [(lead, b"\xaa") for lead in leads] + [(b"\n--" + boundary, b" ")]
+    for lead, fill in fills:
+        content = lead + fill * size + (b"x" if fill == b" " else b"")
         for kind in ("file", "field"):
             hdr = b'Content-Disposition: form-data; name="u"; filename="big.bin"\r\n\r\n' if kind == "file" else \
                 b'Content-Disposition: form-data; name="f"\r\n\r\n'
@@ -82,7 +84,8 @@ def measure_hold(ctx, rnd):
                 worst = max(worst, len(d.buffer))
             ctx.count()
             bound = CH + len(delim) + 8
-            case = {"part": kind, "content": "%r + %d bytes without a line break" % (lead, size), "chunk": CH}
+            case = {"part": kind, "content": "%r + %d bytes without a line break" % (lead, size) if fill != b" " else "LF--boundary + megabytes of blanks + x",
+                    "chunk": CH}
             if worst > bound:
                 ctx.violation(dict(case, api="decoder"), "at most %d bytes held back" % bound, {"max_buffered": worst},
                               "decoder holds back %d bytes (bound %d): the part is buffered instead of streamed" % (worst, bound))
